@@ -61,6 +61,18 @@ CHECKS = {
              'including commits, undos and reopen after the pack.',
         note='history level (bytes of the pack in C08/C09 machinery); pack times at second boundaries; blobs in C13',
         design='6/C07'),
+    'C18': dict(
+        technique='TLA+ spec ZRepozo (transcription of do_backup/find_files/scandat/delete_old_backups, derived recover/verify '
+                  'tables) model-checked by TLC; the whole dumped state graph replayed on a real FileStorage + real repozo calls',
+        text='TLC checks RecoverExact / BackupOnlyCompleteTxns / VerifyDetects on the design for all 16 option combinations and '
+             'exhibits F14/F18 with the deviation constants set; counterexamples are replayed on the code to choose the constants; '
+             'every transition of the graph (commit, in-progress tail, abort, pack, backup with full/quick/gzip/kill-old, damage '
+             'missing/truncated/altered) is replayed, every state recovery at every run date (bytes vs the snapshot of the '
+             'committed part, restored index vs a scan, pair opened by FileStorage) and full+quick verification are real calls '
+             'compared with the table TLC printed and with what the property demands.',
+        note='bounded (3 chunks, 3 runs, 6/7 operations; deeper graphs sampled in thorough); equal-sized transactions; F14 fixed '
+             '(b25fa04), F18 recorded as known findings (chain selection by directory listing)',
+        design='6/C18'),
     'C19': dict(
         technique='TLA+ spec ZFsIndex (flat ordered-map meaning next to a transcription of fsIndex two-level state and of the '
                   'minKey/maxKey case analysis) model-checked by TLC; every transition of the dumped state graph executed on a '
